@@ -184,7 +184,7 @@ func runC04(c *Ctx) {
 			return false
 		}
 		f := staticCallee(&ci.Call)
-		return f != nil && (f == addQuery || reachesStatic(f, addQuery))
+		return f != nil && (f == addQuery || f == addSub)
 	}
 	isWalkGo := func(ev *Ev) bool {
 		g, ok := ev.In.(*ssa.Go)
@@ -280,7 +280,8 @@ func runC04(c *Ctx) {
 							if x.Call.Value != ssa.Value(regCall) {
 								onlyDefer = false
 							}
-						case *ssa.DebugRef:
+						case *ssa.DebugRef, *ssa.Return:
+							// returned by an extracted helper: its use is judged on the paths above
 						default:
 							onlyDefer = false
 						}
